@@ -183,7 +183,8 @@ pub fn render(p: &Pom) -> String {
 	let rev = p.render == Render::Reordered;
 	let (nl, ind) = if p.render == Render::Pretty { ("\n", "\t") } else { ("", "") };
 	let wrap = |name: &str, mut children: Vec<String>, depth: usize| -> String {
-		if rev {
+		// the order of the <dependency> elements is the declaration order and is never changed
+		if rev && name != "dependencies" {
 			children.reverse();
 		}
 		let pad = ind.repeat(depth);
